@@ -169,7 +169,7 @@ pub fn run(ctx: &Ctx) -> (Stats, Report) {
         let s = pt_run(
             &format!("C14/{}", NAMES[which as usize]),
             seed,
-            (if ctx.thorough { 160_000_000 } else { 2_400_000 }) / THREADS as u32,
+            (if ctx.thorough { 160_000_000 } else { 9_600_000 }) / THREADS as u32,
             THREADS,
             || (strat::raw(kind), strat::any_f64(), any::<bool>()),
             |(x, f, div): &(i128, f64, bool), st: &mut Stats| {
